@@ -20,7 +20,13 @@ struct RecordingFrontier {
     log: Arc<Mutex<Vec<usize>>>,
 }
 impl FrontierModel for RecordingFrontier {
-    fn valid_frontier(&self, edge: &Edge, _: &[StateVar], _: Option<&Edge>, _: &StateModel) -> Result<bool, FrontierModelError> {
+    fn valid_frontier(
+        &self,
+        edge: &Edge,
+        _: &[StateVar],
+        _: Option<&Edge>,
+        _: &StateModel,
+    ) -> Result<bool, FrontierModelError> {
         self.log.lock().unwrap().push(edge.edge_id.0);
         Ok(true)
     }
@@ -40,23 +46,46 @@ impl TraversalModel for SleepingTraversal {
     fn state_features(&self) -> Vec<(String, StateFeature)> {
         self.inner.state_features()
     }
-    fn traverse_edge(&self, t: (&Vertex, &Edge, &Vertex), s: &mut Vec<StateVar>, sm: &StateModel) -> Result<(), TraversalModelError> {
+    fn traverse_edge(
+        &self,
+        t: (&Vertex, &Edge, &Vertex),
+        s: &mut Vec<StateVar>,
+        sm: &StateModel,
+    ) -> Result<(), TraversalModelError> {
         let c = self.calls.fetch_add(1, Ordering::SeqCst);
         if c == self.sleep_at {
             std::thread::sleep(std::time::Duration::from_millis(self.sleep_ms));
-            self.log_len_at_sleep.store(self.log.lock().unwrap().len(), Ordering::SeqCst);
+            self.log_len_at_sleep
+                .store(self.log.lock().unwrap().len(), Ordering::SeqCst);
         }
         self.inner.traverse_edge(t, s, sm)
     }
-    fn estimate_traversal(&self, od: (&Vertex, &Vertex), s: &mut Vec<StateVar>, sm: &StateModel) -> Result<(), TraversalModelError> {
+    fn estimate_traversal(
+        &self,
+        od: (&Vertex, &Vertex),
+        s: &mut Vec<StateVar>,
+        sm: &StateModel,
+    ) -> Result<(), TraversalModelError> {
         self.inner.estimate_traversal(od, s, sm)
     }
 }
 
 /// (number of expansions with >= 1 incident edge, number of distinct labelled vertices) observed from the log
 fn observed(net: &Net, log: &[usize], reverse: bool, start: usize) -> (usize, usize) {
-    let tail = |e: usize| if reverse { net.edges[e].1 } else { net.edges[e].0 };
-    let head = |e: usize| if reverse { net.edges[e].0 } else { net.edges[e].1 };
+    let tail = |e: usize| {
+        if reverse {
+            net.edges[e].1
+        } else {
+            net.edges[e].0
+        }
+    };
+    let head = |e: usize| {
+        if reverse {
+            net.edges[e].0
+        } else {
+            net.edges[e].1
+        }
+    };
     let mut runs = 0;
     let mut last: Option<usize> = None;
     let mut seen_in_run: Vec<usize> = vec![];
@@ -84,7 +113,13 @@ struct Run {
     labelled: usize,
 }
 
-fn run_with(w: &World, term: &Term, algo: &Algo, orient: &Orient, reverse: bool) -> Result<Run, String> {
+fn run_with(
+    w: &World,
+    term: &Term,
+    algo: &Algo,
+    orient: &Orient,
+    reverse: bool,
+) -> Result<Run, String> {
     let mut w2 = w.clone();
     w2.term = term.clone();
     let log = Arc::new(Mutex::new(vec![]));
@@ -96,13 +131,39 @@ fn run_with(w: &World, term: &Term, algo: &Algo, orient: &Orient, reverse: bool)
         Orient::Edge { o, .. } => w.net.edges[*o].1,
     };
     let (runs, labelled) = observed(&w.net, &l, reverse, start);
-    Ok(Run { out, runs, labelled })
+    Ok(Run {
+        out,
+        runs,
+        labelled,
+    })
 }
 
 fn same_result(a: &Outcome, b: &Outcome, first_route_only: bool) -> bool {
     match (a, b) {
-        (Outcome::Ok { routes: ra, trees: ta, .. }, Outcome::Ok { routes: rb, trees: tb, .. }) => {
-            let key = |r: &Vec<RouteEdge>| r.iter().map(|e| (e.edge, e.access.to_bits(), e.traversal.to_bits(), e.state.iter().map(|x| x.to_bits()).collect::<Vec<_>>())).collect::<Vec<_>>();
+        (
+            Outcome::Ok {
+                routes: ra,
+                trees: ta,
+                ..
+            },
+            Outcome::Ok {
+                routes: rb,
+                trees: tb,
+                ..
+            },
+        ) => {
+            let key = |r: &Vec<RouteEdge>| {
+                r.iter()
+                    .map(|e| {
+                        (
+                            e.edge,
+                            e.access.to_bits(),
+                            e.traversal.to_bits(),
+                            e.state.iter().map(|x| x.to_bits()).collect::<Vec<_>>(),
+                        )
+                    })
+                    .collect::<Vec<_>>()
+            };
             if first_route_only {
                 // k-shortest paths: the same set of routes (their order follows hash-ordered candidate lists), trees not compared
                 let mut ka: Vec<_> = ra.iter().map(key).collect();
@@ -117,7 +178,11 @@ fn same_result(a: &Outcome, b: &Outcome, first_route_only: bool) -> bool {
             if ra.iter().zip(rb.iter()).any(|(x, y)| key(x) != key(y)) {
                 return false;
             }
-            let tkey = |t: &Vec<TreeEntry>| t.iter().map(|e| (e.vertex, e.parent, e.edge, e.cost.to_bits())).collect::<Vec<_>>();
+            let tkey = |t: &Vec<TreeEntry>| {
+                t.iter()
+                    .map(|e| (e.vertex, e.parent, e.edge, e.cost.to_bits()))
+                    .collect::<Vec<_>>()
+            };
             ta.iter().zip(tb.iter()).all(|(x, y)| tkey(x) == tkey(y))
         }
         (Outcome::NoPath(_), Outcome::NoPath(_)) => true,
@@ -135,14 +200,36 @@ fn names_limit(text: &str, term: &Term) -> bool {
     }
 }
 
-pub fn check_net(w: &World, algo: &Algo, orient: &Orient, reverse: bool, tier: Tier, st: &mut Stats) {
+pub fn check_net(
+    w: &World,
+    algo: &Algo,
+    orient: &Orient,
+    reverse: bool,
+    tier: Tier,
+    st: &mut Stats,
+) {
     let net = &w.net;
     let size = net.size();
-    let comp_base = format!("{}.{}{}", algo.component(), if reverse { "reverse" } else { "forward" }, if matches!(orient, Orient::Edge { .. }) { ".by_edge" } else { "" });
+    let comp_base = format!(
+        "{}.{}{}",
+        algo.component(),
+        if reverse { "reverse" } else { "forward" },
+        if matches!(orient, Orient::Edge { .. }) {
+            ".by_edge"
+        } else {
+            ""
+        }
+    );
     let unlimited = match run_with(w, &Term::Unlimited, algo, orient, reverse) {
         Ok(r) => r,
         Err(e) => {
-            st.violation("harness", "si_build", 0, || e.clone(), || json!({"world": w}));
+            st.violation(
+                "harness",
+                "si_build",
+                0,
+                || e.clone(),
+                || json!({"world": w}),
+            );
             return;
         }
     };
@@ -150,17 +237,37 @@ pub fn check_net(w: &World, algo: &Algo, orient: &Orient, reverse: bool, tier: T
     st.transitions += 1;
     st.traces += 1;
     let (n_iter, n_tree) = match &unlimited.out {
-        Outcome::Ok { iterations, trees, .. } => (*iterations as usize, trees.first().map(|t| t.len()).unwrap_or(0)),
+        Outcome::Ok {
+            iterations, trees, ..
+        } => (
+            *iterations as usize,
+            trees.first().map(|t| t.len()).unwrap_or(0),
+        ),
         Outcome::NoPath(_) => (unlimited.runs, unlimited.labelled),
         other => {
-            st.violation(&comp_base, "unlimited_search_completes", size, || other.text(), || case_json(w, algo, orient, reverse, Value::Null));
+            st.violation(
+                &comp_base,
+                "unlimited_search_completes",
+                size,
+                || other.text(),
+                || case_json(w, algo, orient, reverse, Value::Null),
+            );
             return;
         }
     };
     if n_iter >= 2 {
         st.nontrivial += 1;
     }
-    let max_out = (0..net.n).map(|v| if reverse { net.in_edges(v).len() } else { net.out_edges(v).len() }).max().unwrap_or(0);
+    let max_out = (0..net.n)
+        .map(|v| {
+            if reverse {
+                net.in_edges(v).len()
+            } else {
+                net.out_edges(v).len()
+            }
+        })
+        .max()
+        .unwrap_or(0);
     let ksp = algo.is_ksp();
     // limit alphabets: every value from 0 to beyond what the unlimited search needed
     let hi = n_iter.max(n_tree) + 3;
@@ -171,17 +278,42 @@ pub fn check_net(w: &World, algo: &Algo, orient: &Orient, reverse: bool, tier: T
     }
     for l in 0..=hi {
         // combined of two: the other member is generous / tight
-        terms.push(("combined".into(), Term::Combined(vec![Term::Iterations(l as u64), Term::Size(hi + 5)])));
-        terms.push(("combined".into(), Term::Combined(vec![Term::Iterations(hi as u64 + 5), Term::Size(l)])));
+        terms.push((
+            "combined".into(),
+            Term::Combined(vec![Term::Iterations(l as u64), Term::Size(hi + 5)]),
+        ));
+        terms.push((
+            "combined".into(),
+            Term::Combined(vec![Term::Iterations(hi as u64 + 5), Term::Size(l)]),
+        ));
         if tier == Tier::Thorough {
-            terms.push(("combined".into(), Term::Combined(vec![Term::Iterations(l as u64), Term::Size(l)])));
+            terms.push((
+                "combined".into(),
+                Term::Combined(vec![Term::Iterations(l as u64), Term::Size(l)]),
+            ));
         }
     }
     for f in [1u64, 2, 5] {
-        terms.push(("runtime_generous".into(), Term::RuntimeMs { limit_ms: 3_600_000, frequency: f }));
-        terms.push(("combined".into(), Term::Combined(vec![Term::RuntimeMs { limit_ms: 3_600_000, frequency: f }, Term::Iterations(hi as u64 + 5)])));
+        terms.push((
+            "runtime_generous".into(),
+            Term::RuntimeMs {
+                limit_ms: 3_600_000,
+                frequency: f,
+            },
+        ));
+        terms.push((
+            "combined".into(),
+            Term::Combined(vec![
+                Term::RuntimeMs {
+                    limit_ms: 3_600_000,
+                    frequency: f,
+                },
+                Term::Iterations(hi as u64 + 5),
+            ]),
+        ));
     }
-    let mut last_success: std::collections::HashMap<String, bool> = std::collections::HashMap::new();
+    let mut last_success: std::collections::HashMap<String, bool> =
+        std::collections::HashMap::new();
     for (kind, term) in terms.iter() {
         st.evaluations += 1;
         st.transitions += 1;
@@ -202,14 +334,32 @@ pub fn check_net(w: &World, algo: &Algo, orient: &Orient, reverse: bool, tier: T
                 if names_limit(text, term) {
                     st.pass("terminated_error_names_the_limit");
                 } else {
-                    st.violation(&comp, "terminated_error_names_the_limit", size, || format!("limit {:?} but error text is: {}", term, text), case);
+                    st.violation(
+                        &comp,
+                        "terminated_error_names_the_limit",
+                        size,
+                        || format!("limit {:?} but error text is: {}", term, text),
+                        case,
+                    );
                 }
                 if kind == "runtime_generous" {
-                    st.violation(&comp, "generous_runtime_limit_does_not_fire", size, || text.clone(), case);
+                    st.violation(
+                        &comp,
+                        "generous_runtime_limit_does_not_fire",
+                        size,
+                        || text.clone(),
+                        case,
+                    );
                 }
             }
             Outcome::OtherErr(e) => {
-                st.violation(&comp, "terminated_or_identical", size, || format!("limit {:?}: {}", term, e), case);
+                st.violation(
+                    &comp,
+                    "terminated_or_identical",
+                    size,
+                    || format!("limit {:?}: {}", term, e),
+                    case,
+                );
                 continue;
             }
             Outcome::Ok { .. } | Outcome::NoPath(_) => {
@@ -217,7 +367,20 @@ pub fn check_net(w: &World, algo: &Algo, orient: &Orient, reverse: bool, tier: T
                 if same_result(&r.out, &unlimited.out, ksp) {
                     st.pass("result_under_limit_identical_to_unlimited");
                 } else {
-                    st.violation(&comp, "result_under_limit_identical_to_unlimited", size, || format!("limit {:?}: {} but unlimited: {}", term, r.out.text(), unlimited.out.text()), case);
+                    st.violation(
+                        &comp,
+                        "result_under_limit_identical_to_unlimited",
+                        size,
+                        || {
+                            format!(
+                                "limit {:?}: {} but unlimited: {}",
+                                term,
+                                r.out.text(),
+                                unlimited.out.text()
+                            )
+                        },
+                        case,
+                    );
                 }
             }
         }
@@ -228,7 +391,8 @@ pub fn check_net(w: &World, algo: &Algo, orient: &Orient, reverse: bool, tier: T
         // see): on a tie-free network Dijkstra pops exactly the vertices nearer than the destination (all reachable ones when
         // there is no destination or it cannot be reached) - N of them - and the limit test before pop number i lets it
         // through while i < limit, so the search completes iff limit > N
-        if let (Term::Iterations(l), Algo::Dijkstra, Orient::Vertex { o, d }) = (term, algo, orient) {
+        if let (Term::Iterations(l), Algo::Dijkstra, Orient::Vertex { o, d }) = (term, algo, orient)
+        {
             let cost_of = |e: usize| Some(w.ref_edge_cost(None, e));
             let dist = crate::refmodel::graph::bellman_ford(net, *o, !reverse, &cost_of);
             let dt = d.map(|d| dist[d]).filter(|x| x.is_finite());
@@ -259,13 +423,25 @@ pub fn check_net(w: &World, algo: &Algo, orient: &Orient, reverse: bool, tier: T
             if r.runs <= l {
                 st.pass("expansions_at_most_iteration_limit");
             } else {
-                st.violation(&comp, "expansions_at_most_iteration_limit", size, || format!("limit {} but {} expansions observed", l, r.runs), case);
+                st.violation(
+                    &comp,
+                    "expansions_at_most_iteration_limit",
+                    size,
+                    || format!("limit {} but {} expansions observed", l, r.runs),
+                    case,
+                );
             }
             if let Outcome::Ok { iterations, .. } = &r.out {
                 if *iterations as usize <= l {
                     st.pass("reported_iterations_at_most_limit");
                 } else {
-                    st.violation(&comp, "reported_iterations_at_most_limit", size, || format!("limit {} but result reports {} iterations", l, iterations), case);
+                    st.violation(
+                        &comp,
+                        "reported_iterations_at_most_limit",
+                        size,
+                        || format!("limit {} but result reports {} iterations", l, iterations),
+                        case,
+                    );
                 }
             }
         }
@@ -273,14 +449,31 @@ pub fn check_net(w: &World, algo: &Algo, orient: &Orient, reverse: bool, tier: T
             if r.labelled <= l + max_out {
                 st.pass("tree_at_most_size_limit_plus_out_degree");
             } else {
-                st.violation(&comp, "tree_at_most_size_limit_plus_out_degree", size, || format!("limit {} max out-degree {} but {} vertices labelled", l, max_out, r.labelled), case);
+                st.violation(
+                    &comp,
+                    "tree_at_most_size_limit_plus_out_degree",
+                    size,
+                    || {
+                        format!(
+                            "limit {} max out-degree {} but {} vertices labelled",
+                            l, max_out, r.labelled
+                        )
+                    },
+                    case,
+                );
             }
             if let Outcome::Ok { trees, .. } = &r.out {
                 let ts = trees.first().map(|t| t.len()).unwrap_or(0);
                 if ts <= l + max_out {
                     st.pass("returned_tree_at_most_size_limit_plus_out_degree");
                 } else {
-                    st.violation(&comp, "returned_tree_at_most_size_limit_plus_out_degree", size, || format!("limit {} max out-degree {} but tree has {}", l, max_out, ts), case);
+                    st.violation(
+                        &comp,
+                        "returned_tree_at_most_size_limit_plus_out_degree",
+                        size,
+                        || format!("limit {} max out-degree {} but tree has {}", l, max_out, ts),
+                        case,
+                    );
                 }
             }
         }
@@ -289,7 +482,13 @@ pub fn check_net(w: &World, algo: &Algo, orient: &Orient, reverse: bool, tier: T
             let ok = matches!(r.out, Outcome::Ok { .. } | Outcome::NoPath(_));
             if let Some(prev) = last_success.get(kind) {
                 if *prev && !ok {
-                    st.violation(&comp, "success_monotone_in_limit", size, || format!("succeeded with a smaller limit but not with {:?}", term), case);
+                    st.violation(
+                        &comp,
+                        "success_monotone_in_limit",
+                        size,
+                        || format!("succeeded with a smaller limit but not with {:?}", term),
+                        case,
+                    );
                 } else {
                     st.pass("success_monotone_in_limit");
                 }
@@ -324,7 +523,10 @@ pub fn check_runtime_exhausted(w: &World, reverse: bool, st: &mut Stats) {
             st.evaluations += 1;
             st.transitions += 1;
             st.traces += 1;
-            let term = Term::RuntimeMs { limit_ms: 2, frequency: freq };
+            let term = Term::RuntimeMs {
+                limit_ms: 2,
+                frequency: freq,
+            };
             let mut w2 = w.clone();
             w2.term = term.clone();
             let log = Arc::new(Mutex::new(vec![]));
@@ -344,8 +546,19 @@ pub fn check_runtime_exhausted(w: &World, reverse: bool, st: &mut Stats) {
             let out = run_search(&si, &algo, &orient, reverse, &json!({}));
             let l = log.lock().unwrap().clone();
             let at = sleeper.log_len_at_sleep.load(Ordering::SeqCst);
-            let case = || case_json(w, &algo, &orient, reverse, json!({"limit": term, "sleep_during_traversal_call": k}));
-            let comp = format!("dijkstra.{}.runtime_exhausted", if reverse { "reverse" } else { "forward" });
+            let case = || {
+                case_json(
+                    w,
+                    &algo,
+                    &orient,
+                    reverse,
+                    json!({"limit": term, "sleep_during_traversal_call": k}),
+                )
+            };
+            let comp = format!(
+                "dijkstra.{}.runtime_exhausted",
+                if reverse { "reverse" } else { "forward" }
+            );
             let size = net.size();
             st.outcome(&format!("runtime_exhausted:{}", out.kind()));
             match &out {
@@ -353,15 +566,33 @@ pub fn check_runtime_exhausted(w: &World, reverse: bool, st: &mut Stats) {
                     if text.contains("exceeded runtime limit of") {
                         st.pass("terminated_error_names_the_limit");
                     } else {
-                        st.violation(&comp, "terminated_error_names_the_limit", size, || text.clone(), case);
+                        st.violation(
+                            &comp,
+                            "terminated_error_names_the_limit",
+                            size,
+                            || text.clone(),
+                            case,
+                        );
                     }
                 }
                 Outcome::Ok { .. } => {
                     if !same_result(&out, &unlimited.out, false) {
-                        st.violation(&comp, "result_under_limit_identical_to_unlimited", size, || out.text(), case);
+                        st.violation(
+                            &comp,
+                            "result_under_limit_identical_to_unlimited",
+                            size,
+                            || out.text(),
+                            case,
+                        );
                     }
                 }
-                other => st.violation(&comp, "terminated_or_identical", size, || other.text(), case),
+                other => st.violation(
+                    &comp,
+                    "terminated_or_identical",
+                    size,
+                    || other.text(),
+                    case,
+                ),
             }
             // expansions that started after the sleeping one: at most frequency - 1 (then the scheduled check fires)
             if at != usize::MAX && at <= l.len() {
@@ -385,13 +616,38 @@ pub fn for_net(net: &Net, tier: Tier, st: &mut Stats) {
     let w = World::distance(net.clone());
     let mut algos = vec![Algo::Dijkstra, Algo::AStar(Some(1.0))];
     if idx % 4 == 0 || tier == Tier::Thorough {
-        algos.push(Algo::SingleVia { k: 2, under: Box::new(Algo::Dijkstra), sim: Some(Sim::EdgeCos(0.99)), term: None });
+        algos.push(Algo::SingleVia {
+            k: 2,
+            under: Box::new(Algo::Dijkstra),
+            sim: Some(Sim::EdgeCos(0.99)),
+            term: None,
+        });
     }
     for algo in algos.iter() {
-        check_net(&w, algo, &Orient::Vertex { o: 0, d: Some(n - 1) }, false, tier, st);
+        check_net(
+            &w,
+            algo,
+            &Orient::Vertex {
+                o: 0,
+                d: Some(n - 1),
+            },
+            false,
+            tier,
+            st,
+        );
         if !algo.is_ksp() {
             check_net(&w, algo, &Orient::Vertex { o: 0, d: None }, false, tier, st);
-            check_net(&w, algo, &Orient::Vertex { o: 0, d: Some(n - 1) }, true, tier, st);
+            check_net(
+                &w,
+                algo,
+                &Orient::Vertex {
+                    o: 0,
+                    d: Some(n - 1),
+                },
+                true,
+                tier,
+                st,
+            );
         }
         // searches asked for by edge go through a wrapper around the vertex search: a rotating subset of the ordered pairs of
         // distinct edges (adjacent ones are answered without a search) and destination-less searches from an edge;
@@ -422,8 +678,22 @@ pub fn for_net(net: &Net, tier: Tier, st: &mut Stats) {
 fn yens_nets(tier: Tier) -> Vec<Net> {
     use crate::world::net::{for_each_in_shard, shards};
     let specs = vec![
-        GenSpec { n: 4, max_edges: tier.pick(4, 5), max_mult: 1, n_len: 1, self_loops: false, mode: LenMode::PowersOfTwo },
-        GenSpec { n: 5, max_edges: tier.pick(4, 5), max_mult: 1, n_len: 1, self_loops: false, mode: LenMode::PowersOfTwo },
+        GenSpec {
+            n: 4,
+            max_edges: tier.pick(4, 5),
+            max_mult: 1,
+            n_len: 1,
+            self_loops: false,
+            mode: LenMode::PowersOfTwo,
+        },
+        GenSpec {
+            n: 5,
+            max_edges: tier.pick(4, 5),
+            max_mult: 1,
+            n_len: 1,
+            self_loops: false,
+            mode: LenMode::PowersOfTwo,
+        },
     ];
     let mut out = vec![];
     // structured family "main path + detour": the least-cost path 0 -> 1 -> ... -> p has p edges; a detour of q edges
@@ -432,7 +702,8 @@ fn yens_nets(tier: Tier) -> Vec<Net> {
     for p in 3..=4usize {
         for q in 2..=tier.pick(6usize, 8usize) {
             let n = p + 1 + (q - 1);
-            let mut edges: Vec<(usize, usize, f64)> = (0..p).map(|i| (i, i + 1, (1u64 << i) as f64)).collect();
+            let mut edges: Vec<(usize, usize, f64)> =
+                (0..p).map(|i| (i, i + 1, (1u64 << i) as f64)).collect();
             let mut prev = 1usize;
             for j in 0..q {
                 let next = if j + 1 == q { p } else { p + 1 + j };
@@ -440,8 +711,19 @@ fn yens_nets(tier: Tier) -> Vec<Net> {
                 prev = next;
             }
             // the destination of the query is vertex n-1 by convention: relabel so that the path end p becomes n-1
-            let relabel = |v: usize| if v == p { n - 1 } else if v == n - 1 { p } else { v };
-            let edges = edges.into_iter().map(|(a, b, l)| (relabel(a), relabel(b), l)).collect();
+            let relabel = |v: usize| {
+                if v == p {
+                    n - 1
+                } else if v == n - 1 {
+                    p
+                } else {
+                    v
+                }
+            };
+            let edges = edges
+                .into_iter()
+                .map(|(a, b, l)| (relabel(a), relabel(b), l))
+                .collect();
             out.push(Net { n, edges, xy: None });
         }
     }
@@ -455,7 +737,15 @@ fn yens_nets(tier: Tier) -> Vec<Net> {
                 if paths.len() < 2 {
                     return;
                 }
-                let best = paths.iter().map(|p| (p.iter().map(|e| w.ref_edge_cost(None, *e)).sum::<f64>(), p.len())).fold((f64::INFINITY, 0), |a, b| if b.0 < a.0 { b } else { a });
+                let best = paths
+                    .iter()
+                    .map(|p| {
+                        (
+                            p.iter().map(|e| w.ref_edge_cost(None, *e)).sum::<f64>(),
+                            p.len(),
+                        )
+                    })
+                    .fold((f64::INFINITY, 0), |a, b| if b.0 < a.0 { b } else { a });
                 if best.1 >= 3 {
                     out.push(net.clone());
                 }
@@ -466,14 +756,22 @@ fn yens_nets(tier: Tier) -> Vec<Net> {
 }
 
 fn yens_algo() -> Algo {
-    Algo::Yens { k: 2, under: Box::new(Algo::Dijkstra), sim: Some(Sim::EdgeCos(0.99)), term: None }
+    Algo::Yens {
+        k: 2,
+        under: Box::new(Algo::Dijkstra),
+        sim: Some(Sim::EdgeCos(0.99)),
+        term: None,
+    }
 }
 
 fn yens_sweep_case(net: &Net, st: &mut Stats) {
     st.states += 1;
     let w = World::distance(net.clone());
     let algo = yens_algo();
-    let orient = Orient::Vertex { o: 0, d: Some(net.n - 1) };
+    let orient = Orient::Vertex {
+        o: 0,
+        d: Some(net.n - 1),
+    };
     let unlimited = match run_with(&w, &Term::Unlimited, &algo, &orient, false) {
         Ok(r) => r,
         Err(_) => return,
@@ -489,7 +787,14 @@ fn yens_sweep_case(net: &Net, st: &mut Stats) {
     st.nontrivial += 1;
     let hi = net.n + 4;
     for l in 0..=hi {
-        for (kind, term) in [("iterations", Term::Iterations(l as u64)), ("solution_size", Term::Size(l)), ("combined", Term::Combined(vec![Term::Iterations(l as u64), Term::Size(hi + 3)]))] {
+        for (kind, term) in [
+            ("iterations", Term::Iterations(l as u64)),
+            ("solution_size", Term::Size(l)),
+            (
+                "combined",
+                Term::Combined(vec![Term::Iterations(l as u64), Term::Size(hi + 3)]),
+            ),
+        ] {
             st.evaluations += 1;
             st.transitions += 1;
             st.traces += 1;
@@ -501,20 +806,47 @@ fn yens_sweep_case(net: &Net, st: &mut Stats) {
             let case = || case_json(&w, &algo, &orient, false, json!({"limit": term}));
             st.outcome(&format!("yens_{}:{}", kind, r.out.kind()));
             match &r.out {
-                Outcome::Panic(p) => st.violation(&comp, "no_panic", net.size(), || p.clone(), case),
+                Outcome::Panic(p) => {
+                    st.violation(&comp, "no_panic", net.size(), || p.clone(), case)
+                }
                 Outcome::Terminated(text) => {
                     if names_limit(text, &term) {
                         st.pass("yens_terminated_error_names_the_limit");
                     } else {
-                        st.violation(&comp, "terminated_error_names_the_limit", net.size(), || format!("limit {:?} but error text is: {}", term, text), case);
+                        st.violation(
+                            &comp,
+                            "terminated_error_names_the_limit",
+                            net.size(),
+                            || format!("limit {:?} but error text is: {}", term, text),
+                            case,
+                        );
                     }
                 }
-                Outcome::OtherErr(e) => st.violation(&comp, "terminated_or_identical", net.size(), || format!("limit {:?}: {}", term, e), case),
+                Outcome::OtherErr(e) => st.violation(
+                    &comp,
+                    "terminated_or_identical",
+                    net.size(),
+                    || format!("limit {:?}: {}", term, e),
+                    case,
+                ),
                 Outcome::Ok { .. } | Outcome::NoPath(_) => {
                     if same_result(&r.out, &unlimited.out, false) {
                         st.pass("yens_result_under_limit_identical_to_unlimited");
                     } else {
-                        st.violation(&comp, "result_under_limit_identical_to_unlimited", net.size(), || format!("limit {:?}: {} but unlimited: {}", term, r.out.text(), unlimited.out.text()), case);
+                        st.violation(
+                            &comp,
+                            "result_under_limit_identical_to_unlimited",
+                            net.size(),
+                            || {
+                                format!(
+                                    "limit {:?}: {} but unlimited: {}",
+                                    term,
+                                    r.out.text(),
+                                    unlimited.out.text()
+                                )
+                            },
+                            case,
+                        );
                     }
                 }
             }
@@ -523,7 +855,11 @@ fn yens_sweep_case(net: &Net, st: &mut Stats) {
 }
 
 pub fn worker(args: &[String]) -> i32 {
-    let tier = if args.first().map(|s| s.as_str()) == Some("thorough") { Tier::Thorough } else { Tier::Quick };
+    let tier = if args.first().map(|s| s.as_str()) == Some("thorough") {
+        Tier::Thorough
+    } else {
+        Tier::Quick
+    };
     let nets = yens_nets(tier);
     crate::engine::sandbox::worker_loop(|i, st| {
         yens_sweep_case(&nets[i as usize], st);
@@ -536,19 +872,67 @@ pub fn worker(args: &[String]) -> i32 {
 pub fn specs(tier: Tier) -> Vec<GenSpec> {
     match tier {
         Tier::Quick => vec![
-            GenSpec { n: 3, max_edges: 6, max_mult: 2, n_len: 1, self_loops: true, mode: LenMode::PowersOfTwo },
-            GenSpec { n: 4, max_edges: 5, max_mult: 2, n_len: 1, self_loops: true, mode: LenMode::PowersOfTwo },
-            GenSpec { n: 5, max_edges: 5, max_mult: 1, n_len: 1, self_loops: false, mode: LenMode::PowersOfTwo },
+            GenSpec {
+                n: 3,
+                max_edges: 6,
+                max_mult: 2,
+                n_len: 1,
+                self_loops: true,
+                mode: LenMode::PowersOfTwo,
+            },
+            GenSpec {
+                n: 4,
+                max_edges: 5,
+                max_mult: 2,
+                n_len: 1,
+                self_loops: true,
+                mode: LenMode::PowersOfTwo,
+            },
+            GenSpec {
+                n: 5,
+                max_edges: 5,
+                max_mult: 1,
+                n_len: 1,
+                self_loops: false,
+                mode: LenMode::PowersOfTwo,
+            },
         ],
         Tier::Thorough => vec![
-            GenSpec { n: 3, max_edges: 7, max_mult: 2, n_len: 1, self_loops: true, mode: LenMode::PowersOfTwo },
-            GenSpec { n: 4, max_edges: 6, max_mult: 2, n_len: 1, self_loops: true, mode: LenMode::PowersOfTwo },
-            GenSpec { n: 5, max_edges: 6, max_mult: 1, n_len: 1, self_loops: false, mode: LenMode::PowersOfTwo },
-            GenSpec { n: 6, max_edges: 5, max_mult: 1, n_len: 1, self_loops: false, mode: LenMode::PowersOfTwo },
+            GenSpec {
+                n: 3,
+                max_edges: 7,
+                max_mult: 2,
+                n_len: 1,
+                self_loops: true,
+                mode: LenMode::PowersOfTwo,
+            },
+            GenSpec {
+                n: 4,
+                max_edges: 6,
+                max_mult: 2,
+                n_len: 1,
+                self_loops: true,
+                mode: LenMode::PowersOfTwo,
+            },
+            GenSpec {
+                n: 5,
+                max_edges: 6,
+                max_mult: 1,
+                n_len: 1,
+                self_loops: false,
+                mode: LenMode::PowersOfTwo,
+            },
+            GenSpec {
+                n: 6,
+                max_edges: 5,
+                max_mult: 1,
+                n_len: 1,
+                self_loops: false,
+                mode: LenMode::PowersOfTwo,
+            },
         ],
     }
 }
-
 
 fn respell(v: &Value, how: usize) -> Value {
     match v {
@@ -560,8 +944,22 @@ fn respell(v: &Value, how: usize) -> Value {
                         let r: String = match how {
                             0 => t.to_string(),
                             1 => t.to_uppercase(),
-                            2 => t.chars().enumerate().map(|(i, c)| if i == 0 { c.to_ascii_uppercase() } else { c }).collect(),
-                            _ => t.chars().enumerate().map(|(i, c)| if i % 2 == 1 { c.to_ascii_uppercase() } else { c }).collect(),
+                            2 => t
+                                .chars()
+                                .enumerate()
+                                .map(|(i, c)| if i == 0 { c.to_ascii_uppercase() } else { c })
+                                .collect(),
+                            _ => t
+                                .chars()
+                                .enumerate()
+                                .map(|(i, c)| {
+                                    if i % 2 == 1 {
+                                        c.to_ascii_uppercase()
+                                    } else {
+                                        c
+                                    }
+                                })
+                                .collect(),
                         };
                         (k.clone(), Value::String(r))
                     } else {
@@ -589,7 +987,10 @@ fn ref_fires(term: &Term, size: usize, iteration: u64, out: &mut Vec<String>) {
                 out.push(format!("exceeded solution size limit of {}", l));
             }
         }
-        Term::RuntimeMs { limit_ms, frequency } => {
+        Term::RuntimeMs {
+            limit_ms,
+            frequency,
+        } => {
             // the probe starts the clock one minute in the past: a zero budget is exhausted, an hour is not
             if (*frequency == 0 || iteration % frequency == 0) && *limit_ms < 60_000 {
                 out.push("exceeded runtime limit of".to_string());
@@ -608,8 +1009,15 @@ fn serde_document(term: &Term) -> Value {
         Term::Unlimited => json!({"iterations": {"limit": u64::MAX / 4}}),
         Term::Iterations(l) => json!({"iterations": {"limit": l}}),
         Term::Size(l) => json!({"solution_size": {"limit": l}}),
-        Term::RuntimeMs { limit_ms, frequency } => json!({"query_runtime": {"limit": {"secs": limit_ms / 1000, "nanos": (limit_ms % 1000) * 1_000_000}, "frequency": frequency}}),
-        Term::Combined(v) => json!({"combined": {"models": v.iter().map(serde_document).collect::<Vec<_>>()}}),
+        Term::RuntimeMs {
+            limit_ms,
+            frequency,
+        } => {
+            json!({"query_runtime": {"limit": {"secs": limit_ms / 1000, "nanos": (limit_ms % 1000) * 1_000_000}, "frequency": frequency}})
+        }
+        Term::Combined(v) => {
+            json!({"combined": {"models": v.iter().map(serde_document).collect::<Vec<_>>()}})
+        }
     }
 }
 
@@ -620,8 +1028,14 @@ fn spelling_terms() -> Vec<Term> {
         singles.push(Term::Size(l as usize));
     }
     for f in [0u64, 1, 3] {
-        singles.push(Term::RuntimeMs { limit_ms: 0, frequency: f });
-        singles.push(Term::RuntimeMs { limit_ms: 3_600_000, frequency: f });
+        singles.push(Term::RuntimeMs {
+            limit_ms: 0,
+            frequency: f,
+        });
+        singles.push(Term::RuntimeMs {
+            limit_ms: 3_600_000,
+            frequency: f,
+        });
     }
     let mut out = singles.clone();
     for a in &singles {
@@ -630,9 +1044,22 @@ fn spelling_terms() -> Vec<Term> {
         }
     }
     for a in [Term::Iterations(2), Term::Size(2)] {
-        for b in [Term::Iterations(4), Term::Size(1), Term::RuntimeMs { limit_ms: 0, frequency: 3 }] {
-            out.push(Term::Combined(vec![Term::Combined(vec![a.clone()]), b.clone()]));
-            out.push(Term::Combined(vec![b.clone(), Term::Combined(vec![a.clone(), b.clone()])]));
+        for b in [
+            Term::Iterations(4),
+            Term::Size(1),
+            Term::RuntimeMs {
+                limit_ms: 0,
+                frequency: 3,
+            },
+        ] {
+            out.push(Term::Combined(vec![
+                Term::Combined(vec![a.clone()]),
+                b.clone(),
+            ]));
+            out.push(Term::Combined(vec![
+                b.clone(),
+                Term::Combined(vec![a.clone(), b.clone()]),
+            ]));
         }
     }
     out.push(Term::Combined(vec![]));
@@ -650,10 +1077,18 @@ fn builder_spellings(st: &mut Stats, only: Option<&Value>) {
         let mut routes: Vec<(String, Value, bool)> = vec![];
         if let Some(cfg) = term.config_json() {
             for (how, name) in SPELLINGS.iter().enumerate() {
-                routes.push((format!("termination_builder.{}", name), respell(&cfg, how), false));
+                routes.push((
+                    format!("termination_builder.{}", name),
+                    respell(&cfg, how),
+                    false,
+                ));
             }
         }
-        routes.push(("termination_model.deserialize".to_string(), serde_document(&term), true));
+        routes.push((
+            "termination_model.deserialize".to_string(),
+            serde_document(&term),
+            true,
+        ));
         for (comp, section, by_serde) in routes {
             if let Some(o) = only {
                 if o.get("section") != Some(&section) {
@@ -662,21 +1097,35 @@ fn builder_spellings(st: &mut Stats, only: Option<&Value>) {
             }
             st.evaluations += 1;
             let case = || json!({"kind": "termination_builder", "section": section, "limit": term});
-            let attempt: Result<Result<TerminationModel, String>, _> = std::panic::catch_unwind(|| {
-                if by_serde {
-                    serde_json::from_value::<TerminationModel>(section.clone()).map_err(|e| e.to_string())
-                } else {
-                    TerminationModelBuilder::build(&section, None).map_err(|e| e.to_string())
-                }
-            });
+            let attempt: Result<Result<TerminationModel, String>, _> =
+                std::panic::catch_unwind(|| {
+                    if by_serde {
+                        serde_json::from_value::<TerminationModel>(section.clone())
+                            .map_err(|e| e.to_string())
+                    } else {
+                        TerminationModelBuilder::build(&section, None).map_err(|e| e.to_string())
+                    }
+                });
             let built = match attempt {
                 Ok(Ok(t)) => t,
                 Ok(Err(e)) => {
-                    st.violation(&comp, "every_spelling_of_a_limit_kind_is_accepted", 0, || format!("{} is rejected: {}", section, e), case);
+                    st.violation(
+                        &comp,
+                        "every_spelling_of_a_limit_kind_is_accepted",
+                        0,
+                        || format!("{} is rejected: {}", section, e),
+                        case,
+                    );
                     continue;
                 }
                 Err(_) => {
-                    st.violation(&comp, "no_panic", 0, || format!("{} makes the builder panic", section), case);
+                    st.violation(
+                        &comp,
+                        "no_panic",
+                        0,
+                        || format!("{} makes the builder panic", section),
+                        case,
+                    );
                     continue;
                 }
             };
@@ -685,10 +1134,15 @@ fn builder_spellings(st: &mut Stats, only: Option<&Value>) {
                 for iteration in 0u64..=7 {
                     let mut want = vec![];
                     ref_fires(&term, size, iteration, &mut want);
-                    let got = match std::panic::catch_unwind(std::panic::AssertUnwindSafe(|| built.test(&start, size, iteration))) {
+                    let got = match std::panic::catch_unwind(std::panic::AssertUnwindSafe(|| {
+                        built.test(&start, size, iteration)
+                    })) {
                         Ok(g) => g,
                         Err(_) => {
-                            bad = Some(format!("{} at tree size {} and iteration {}: the built model panics", section, size, iteration));
+                            bad = Some(format!(
+                                "{} at tree size {} and iteration {}: the built model panics",
+                                section, size, iteration
+                            ));
                             break 'probe;
                         }
                     };
@@ -697,9 +1151,12 @@ fn builder_spellings(st: &mut Stats, only: Option<&Value>) {
                         (Err(e), false) => {
                             let text = e.to_string();
                             want.iter().all(|w| text.contains(w.as_str()))
-                                && (text.contains("iteration limit") == want.iter().any(|w| w.contains("iteration limit")))
-                                && (text.contains("solution size limit") == want.iter().any(|w| w.contains("solution size limit")))
-                                && (text.contains("runtime limit") == want.iter().any(|w| w.contains("runtime limit")))
+                                && (text.contains("iteration limit")
+                                    == want.iter().any(|w| w.contains("iteration limit")))
+                                && (text.contains("solution size limit")
+                                    == want.iter().any(|w| w.contains("solution size limit")))
+                                && (text.contains("runtime limit")
+                                    == want.iter().any(|w| w.contains("runtime limit")))
                         }
                         _ => false,
                     };
@@ -710,7 +1167,13 @@ fn builder_spellings(st: &mut Stats, only: Option<&Value>) {
                 }
             }
             match bad {
-                Some(d) => st.violation(&comp, "built_model_decides_like_the_configured_limit", 0, || d, case),
+                Some(d) => st.violation(
+                    &comp,
+                    "built_model_decides_like_the_configured_limit",
+                    0,
+                    || d,
+                    case,
+                ),
                 None => st.pass("termination_builder_spelling"),
             }
         }
@@ -729,12 +1192,39 @@ pub fn run(tier: Tier) -> i32 {
     // frequency = 0 is a configuration value the builder accepts
     {
         st.evaluations += 1;
-        let net = Net { n: 2, edges: vec![(0, 1, 1.0)], xy: None };
+        let net = Net {
+            n: 2,
+            edges: vec![(0, 1, 1.0)],
+            xy: None,
+        };
         let w = World::distance(net);
-        let term = Term::RuntimeMs { limit_ms: 3_600_000, frequency: 0 };
-        if let Ok(r) = run_with(&w, &term, &Algo::Dijkstra, &Orient::Vertex { o: 0, d: Some(1) }, false) {
+        let term = Term::RuntimeMs {
+            limit_ms: 3_600_000,
+            frequency: 0,
+        };
+        if let Ok(r) = run_with(
+            &w,
+            &term,
+            &Algo::Dijkstra,
+            &Orient::Vertex { o: 0, d: Some(1) },
+            false,
+        ) {
             match &r.out {
-                Outcome::Panic(p) => st.violation("runtime_limit.frequency_zero", "no_panic", 0, || p.clone(), || case_json(&w, &Algo::Dijkstra, &Orient::Vertex { o: 0, d: Some(1) }, false, json!({"limit": term}))),
+                Outcome::Panic(p) => st.violation(
+                    "runtime_limit.frequency_zero",
+                    "no_panic",
+                    0,
+                    || p.clone(),
+                    || {
+                        case_json(
+                            &w,
+                            &Algo::Dijkstra,
+                            &Orient::Vertex { o: 0, d: Some(1) },
+                            false,
+                            json!({"limit": term}),
+                        )
+                    },
+                ),
                 _ => st.pass("frequency_zero_no_panic"),
             }
         }
@@ -745,26 +1235,81 @@ pub fn run(tier: Tier) -> i32 {
         use routee_compass_core::model::termination::termination_model::TerminationModel;
         let start = std::time::Instant::now();
         let mut models: Vec<(String, TerminationModel)> = vec![];
-        for (name, d) in [("duration_max", std::time::Duration::MAX), ("u64_max_seconds", std::time::Duration::from_secs(u64::MAX)), ("i64_max_seconds", std::time::Duration::from_secs(i64::MAX as u64)), ("two_to_the_62_seconds", std::time::Duration::from_secs(1 << 62)), ("a_year", std::time::Duration::from_secs(31_536_000))] {
+        for (name, d) in [
+            ("duration_max", std::time::Duration::MAX),
+            ("u64_max_seconds", std::time::Duration::from_secs(u64::MAX)),
+            (
+                "i64_max_seconds",
+                std::time::Duration::from_secs(i64::MAX as u64),
+            ),
+            (
+                "two_to_the_62_seconds",
+                std::time::Duration::from_secs(1 << 62),
+            ),
+            ("a_year", std::time::Duration::from_secs(31_536_000)),
+        ] {
             for f in [0u64, 1, 7] {
-                models.push((format!("{}.frequency_{}", name, f), TerminationModel::QueryRuntimeLimit { limit: d, frequency: f }));
-                models.push((format!("{}.frequency_{}.combined", name, f), TerminationModel::Combined { models: vec![TerminationModel::QueryRuntimeLimit { limit: d, frequency: f }, TerminationModel::IterationsLimit { limit: 1000 }] }));
+                models.push((
+                    format!("{}.frequency_{}", name, f),
+                    TerminationModel::QueryRuntimeLimit {
+                        limit: d,
+                        frequency: f,
+                    },
+                ));
+                models.push((
+                    format!("{}.frequency_{}.combined", name, f),
+                    TerminationModel::Combined {
+                        models: vec![
+                            TerminationModel::QueryRuntimeLimit {
+                                limit: d,
+                                frequency: f,
+                            },
+                            TerminationModel::IterationsLimit { limit: 1000 },
+                        ],
+                    },
+                ));
             }
         }
-        for text in ["3000000000000000:00:00", "2562047788015215:30:07", "100000:00:00"] {
-            if let Ok(t) = TerminationModelBuilder::build(&json!({"type": "query_runtime", "limit": text, "frequency": 1}), None) {
-                models.push((format!("configured_{}", text.split(':').next().unwrap_or("")), t));
+        for text in [
+            "3000000000000000:00:00",
+            "2562047788015215:30:07",
+            "100000:00:00",
+        ] {
+            if let Ok(t) = TerminationModelBuilder::build(
+                &json!({"type": "query_runtime", "limit": text, "frequency": 1}),
+                None,
+            ) {
+                models.push((
+                    format!("configured_{}", text.split(':').next().unwrap_or("")),
+                    t,
+                ));
             }
         }
         for (name, t) in models.iter() {
             st.evaluations += 1;
             st.transitions += 8;
-            let r = std::panic::catch_unwind(std::panic::AssertUnwindSafe(|| (0u64..8).map(|i| t.test(&start, 3, i).map_err(|e| e.to_string())).collect::<Vec<_>>()));
+            let r = std::panic::catch_unwind(std::panic::AssertUnwindSafe(|| {
+                (0u64..8)
+                    .map(|i| t.test(&start, 3, i).map_err(|e| e.to_string()))
+                    .collect::<Vec<_>>()
+            }));
             let case = || json!({"kind": "huge_budget", "limit": name});
             match r {
-                Err(_) => st.violation("runtime_limit.huge_budget", "no_panic", 0, || format!("{}: the limit test panics", name), case),
+                Err(_) => st.violation(
+                    "runtime_limit.huge_budget",
+                    "no_panic",
+                    0,
+                    || format!("{}: the limit test panics", name),
+                    case,
+                ),
                 Ok(v) if v.iter().all(|x| x.is_ok()) => st.pass("huge_budget_does_not_fire"),
-                Ok(v) => st.violation("runtime_limit.huge_budget", "generous_runtime_limit_does_not_fire", 0, || format!("{}: {:?}", name, v.iter().find(|x| x.is_err())), case),
+                Ok(v) => st.violation(
+                    "runtime_limit.huge_budget",
+                    "generous_runtime_limit_does_not_fire",
+                    0,
+                    || format!("{}: {:?}", name, v.iter().find(|x| x.is_err())),
+                    case,
+                ),
             }
         }
     }
@@ -790,8 +1335,42 @@ pub fn run(tier: Tier) -> i32 {
                     let w = World::distance(net.clone());
                     let hops = "sp3plus";
                     match f {
-                        Fate::Hang { waited_ms } => st.violation(&format!("yens.sub_searches.{}", hops), "terminates", net.size(), || format!("no answer after {} ms (second attempt, alone)", waited_ms), || case_json(&w, &yens_algo(), &Orient::Vertex { o: 0, d: Some(net.n - 1) }, false, Value::Null)),
-                        Fate::Died { how } => st.violation(&format!("yens.sub_searches.{}", hops), "does_not_abort", net.size(), || how.clone(), || case_json(&w, &yens_algo(), &Orient::Vertex { o: 0, d: Some(net.n - 1) }, false, Value::Null)),
+                        Fate::Hang { waited_ms } => st.violation(
+                            &format!("yens.sub_searches.{}", hops),
+                            "terminates",
+                            net.size(),
+                            || format!("no answer after {} ms (second attempt, alone)", waited_ms),
+                            || {
+                                case_json(
+                                    &w,
+                                    &yens_algo(),
+                                    &Orient::Vertex {
+                                        o: 0,
+                                        d: Some(net.n - 1),
+                                    },
+                                    false,
+                                    Value::Null,
+                                )
+                            },
+                        ),
+                        Fate::Died { how } => st.violation(
+                            &format!("yens.sub_searches.{}", hops),
+                            "does_not_abort",
+                            net.size(),
+                            || how.clone(),
+                            || {
+                                case_json(
+                                    &w,
+                                    &yens_algo(),
+                                    &Orient::Vertex {
+                                        o: 0,
+                                        d: Some(net.n - 1),
+                                    },
+                                    false,
+                                    Value::Null,
+                                )
+                            },
+                        ),
                     }
                 }
             }
@@ -835,20 +1414,39 @@ pub fn replay(case: &Value) -> i32 {
         }
     };
     let algo: Algo = serde_json::from_value(case["algo"].clone()).unwrap_or(Algo::Dijkstra);
-    let orient: Orient = serde_json::from_value(case["orient"].clone()).unwrap_or(Orient::Vertex { o: 0, d: Some(w.net.n - 1) });
+    let orient: Orient = serde_json::from_value(case["orient"].clone()).unwrap_or(Orient::Vertex {
+        o: 0,
+        d: Some(w.net.n - 1),
+    });
     let reverse = case["reverse"].as_bool().unwrap_or(false);
-    let term: Term = serde_json::from_value(case["extra"]["limit"].clone()).unwrap_or(Term::Unlimited);
+    let term: Term =
+        serde_json::from_value(case["extra"]["limit"].clone()).unwrap_or(Term::Unlimited);
     match run_with(&w, &term, &algo, &orient, reverse) {
-        Ok(r) => println!("limit {:?}: {} ; observed expansions {} labelled {}", term, r.out.text(), r.runs, r.labelled),
+        Ok(r) => println!(
+            "limit {:?}: {} ; observed expansions {} labelled {}",
+            term,
+            r.out.text(),
+            r.runs,
+            r.labelled
+        ),
         Err(e) => println!("{}", e),
     }
     if let Ok(r) = run_with(&w, &Term::Unlimited, &algo, &orient, reverse) {
-        println!("unlimited: {} ; observed expansions {} labelled {}", r.out.text(), r.runs, r.labelled);
+        println!(
+            "unlimited: {} ; observed expansions {} labelled {}",
+            r.out.text(),
+            r.runs,
+            r.labelled
+        );
     }
     let mut st = Stats::new();
     check_net(&w, &algo, &orient, reverse, Tier::Quick, &mut st);
     for (k, g) in st.violations.iter() {
         println!("REPLAY-VIOLATION {} {}", k, g.detail);
     }
-    if st.violations.is_empty() { 0 } else { 1 }
+    if st.violations.is_empty() {
+        0
+    } else {
+        1
+    }
 }
